@@ -79,8 +79,8 @@ static void viol(int prop, const char *symptom, const char *fmt, ...) {
 	va_start(ap, fmt); vsnprintf(buf, sizeof buf, fmt, ap); va_end(ap);
 	if (cur_children >= 0) snprintf(ch, sizeof ch, "%d", cur_children); else strcpy(ch, "-");
 	snprintf(key, sizeof key, "tree=%s op=%s children=%s symptom=%s", TNAME[g_type], cur_op, ch, symptom);
+	if (!((g_props >> (prop - 12)) & 1)) { if (prop != 14) abort_hist = 1; return; }     /* ownership oracles stay silent (and do not cut the history short) when C14 is not the property under check */
 	abort_hist = 1;
-	if (!((g_props >> (prop - 12)) & 1)) return;
 	if (vh_nviol < vh_max_viol)
 		vh_viol(pn, key, "%s [cfg notif=%d data=%d desc=%d n=%d history: %s]", buf, g_notif, g_withdata, g_desc, mn, oplog);
 }
